@@ -353,7 +353,9 @@ class CPV(base.base):
             sf(self, "package", "-".join(pkg_chunks))
 
     def __hash__(self):
-        return hash(self.cpvstr)
+        # equal versions may be spelled differently (1.0 == 1.00), so the hash
+        # must not depend on the spelling of the version
+        return hash(self.key)
 
     def __repr__(self):
         return f"<{self.__class__.__name__} cpvstr={getattr(self, 'cpvstr', None)} @{id(self):#8x}>"
